@@ -19,10 +19,12 @@ RULE = ("history: random command trees (vp/gen_cmd.py, depth 2-3, aliases, flag 
         "build() twice on every generated tree.  A case is non-trivial when the history is non-empty and the final "
         "parse enters a subcommand, asks for help/version or fails; distinct = distinct case text.")
 TRUSTED = [
-    "Coq 8.16.1 kernel (coqc); no native_compute; the 15 state-level theorems C11_* are 'Closed under the global "
-    "context'; the 4 parser-level ones (C11_parser_reads_signatures, C11_parse_normal_form, C11_parse_names_normal_form, "
-    "C11_history_independence) use the standard-library axiom FunctionalExtensionality.functional_extensionality_dep "
-    "(to rewrite equal functions under binders) and nothing else",
+    "Coq 8.16.1 kernel (coqc); no native_compute; 27 of the 36 theorems C11_* are 'Closed under the global "
+    "context'; the 9 parser-level ones (C11_parser_reads_signatures, C11_parse_normal_form, C11_parse_names_normal_form, "
+    "C11_history_independence, C11_visited_levels_normal_form, C11_history_independence_dym, C11_history_outcome, "
+    "C11_history_ids_order, C11_history_messages) use the standard-library axiom "
+    "FunctionalExtensionality.functional_extensionality_dep (to rewrite equal functions under binders: sh_parse_loop, "
+    "sh_validate) and nothing else",
     "extraction: ExtrOcamlBasic only, no Extract Constant; OCaml driver ocaml/reentrancy_driver.ml + common_parse/{spec,show}.ml",
     "correspondence: vp/props/c11.py generators and projection, harness/src/modes/history.rs (public API only: "
     "try_get_matches_from_mut, build, render_help, render_long_help, render_usage, clone, get_bin_name, "
@@ -38,7 +40,10 @@ ASSUMPTIONS = [
     "(no Command::bin_name() on subcommands in the generated definitions)",
     "calls are made on the root Command value only (render_usage on a subcommand obtained through find_subcommand_mut "
     "before the root is built is a call on a different Command value and outside the property)",
-    "rendered message text beyond kind / help level / names is compared on the implementation only (direct oracle)",
+    "rendered message text beyond kind / help level / names / version line / usage head is compared on the implementation "
+    "only (direct oracle); the required-arguments part of usage_name is an arbitrary function of the parent's own definition",
+    "whether did_you_mean_flag builds the subcommands of the failing level depends on strsim::jaro, which the shared parser "
+    "model does not compute: the theorems hold for both answers (boolean parameter `fires`)",
 ]
 
 PROG = b"prog"
@@ -464,8 +469,10 @@ def streams(tier, rng):
 
 
 TECHNIQUE = ("Coq proof (idempotence of the build steps, normal-form invariance of the in-place mutations for every "
-             "operation history, the parser reads subcommands only through their signatures, history independence of the "
-             "parser result) + extracted-model/implementation correspondence on operation histories")
+             "operation history incl. failing parses that build subcommands behind the caller's back, the parser reads "
+             "subcommands only through their signatures, history independence of the parser result, of the complete outcome "
+             "after global-value propagation and of the name-dependent message lines) + extracted-model/implementation "
+             "correspondence on operation histories")
 LEVEL_TEXT = ("Machine-checked theorems (Coq 8.16) about a stateful model of one Command value mutated in place by "
               "try_get_matches_from_mut / build / render_help / render_long_help / render_usage / clone and by the "
               "subcommand building hidden in did_you_mean_flag: the build steps are idempotent and never re-run behind "
@@ -473,12 +480,25 @@ LEVEL_TEXT = ("Machine-checked theorems (Coq 8.16) about a stateful model of one
               "normal form of the tree to every depth, for every command and every finite history; the parser of a level "
               "reads its subcommands only through names/aliases/flags and _build_subcommand, so the parser result, the "
               "names of every visited level and the reported error after any history equal those of the fresh definition "
-              "(C11_history_independence).  The statement about definitions built beforehand is refuted by a witness "
-              "(known finding).  The model is tied to clap_builder by running the extracted model and the real crate on "
+              "(C11_history_independence).  Third pass: the failing parse that mutates (did_you_mean_flag builds every "
+              "subcommand of the level that rejected an unknown long flag) is folded into the parse; the mutation reaches the "
+              "failing level on the parse's own path; histories containing such parses give the fresh parser result, names, "
+              "error and the same own definition (arguments incl. inherited globals, in order) of every visited level "
+              "(C11_history_independence_dym); the recorded subcommand chain follows the touched nodes and "
+              "get_used_global_args on it is a function of the normal form, so the COMPLETE outcome after "
+              "propagate_globals, incl. the order of ids(), equals the fresh one for definitions whose root subcommand "
+              "names/aliases are distinct (C11_history_outcome; valid definitions are in the class); version line and "
+              "usage head (usage_name as _build_subcommand computes it) of every visited level are equal on reused / cloned / "
+              "fresh (C11_history_messages).  The statement about definitions built beforehand is refuted by a witness "
+              "(known finding), delimited as a boolean class of definitions (auto-generated help subcommand present); "
+              "outside it the tree-building half of build() preserves the normal form "
+              "(C11_build_tree_preserves_normal_form_partial).  The model is tied to clap_builder by running the extracted model and the real crate on "
               "the same generated histories on every check (results and the observable names / argument ids of every node "
               "after every step), and an independent python oracle compares the reused, fresh, cloned, pre-built and "
               "by-value results and rendered messages of the real crate.")
-LEVEL_NOTE = ("15 theorems closed under the global context, 4 use functional_extensionality_dep.  Trusted: Coq kernel, "
-              "extraction, OCaml driver, Rust harness, generators, the shared parser model.  Differential only: global-value "
-              "propagation after the parser, rendered message text, histories containing build().  Known finding: after "
+LEVEL_NOTE = ("36 theorems: 27 closed under the global context, 9 use functional_extensionality_dep (removing it needs a "
+              "lock-step traversal of parse_loop and of the validator: not done).  Trusted: Coq kernel, "
+              "extraction, OCaml driver, Rust harness, generators, the shared parser model.  Differential only: rendered "
+              "message text beyond version line / usage head, the _build_bin_names_internal half of build() and build() on "
+              "definitions with a help subcommand, whether did_you_mean builds (jaro; both answers covered by the theorems).  Known finding: after "
               "build() `help help <sub>` is DisplayHelp instead of InvalidSubcommand.")
